@@ -1,0 +1,285 @@
+// Verification hooks for the secondary storage column format (see /verif, properties C06/C18).
+// Compiled only with `--cfg risinglight_verif`. Add-only: nothing here is used by the engine.
+//
+// * `build_column`: one column built by the real `ColumnBuilder`s with an explicit encode type,
+//   char width, block size, nullability and checksum type; returns the `.col` bytes, the decoded
+//   block index entries and the `.idx` bytes produced by the real `IndexBuilder`.
+// * `VerifColumn::open` / `VerifColumn::iter` / `VerifIter`: the real `Column` (in-memory file
+//   backend, real moka block cache, real `ColumnIndex::from_bytes`) and the real
+//   `ConcreteColumnIterator` behind `ColumnIteratorImpl`.
+// * `crc32`: the engine's `build_checksum(Crc32, ..)`.
+
+use bytes::Bytes;
+use moka::future::Cache;
+use risinglight_proto::rowset::block_checksum::ChecksumType;
+
+use super::*;
+use crate::array::ArrayImpl;
+use crate::storage::StorageResult;
+use crate::types::DataType;
+
+/// One entry of the block index, as plain data.
+#[derive(Debug, Clone, PartialEq, Eq)]
+pub struct VerifIndexEntry {
+    pub offset: u64,
+    pub length: u64,
+    pub first_rowid: u32,
+    pub row_count: u32,
+    pub first_key: Vec<u8>,
+    pub is_first_key_null: bool,
+}
+
+pub struct BuiltColumn {
+    pub data: Vec<u8>,
+    pub index: Vec<VerifIndexEntry>,
+    pub index_bytes: Vec<u8>,
+}
+
+pub fn encode_type_of(name: &str) -> EncodeType {
+    match name {
+        "plain" => EncodeType::Plain,
+        "rle" => EncodeType::RunLength,
+        "dict" => EncodeType::Dictionary,
+        _ => panic!("unknown encode type {name}"),
+    }
+}
+
+/// Builds one column from `arrays` (appended in order) with the real column builders.
+#[allow(clippy::too_many_arguments)]
+pub fn build_column(
+    arrays: &[ArrayImpl],
+    datatype: &DataType,
+    nullable: bool,
+    encode: &str,
+    char_width: Option<u64>,
+    target_block_size: usize,
+    crc32: bool,
+    record_first_key: bool,
+) -> BuiltColumn {
+    let checksum_type = if crc32 {
+        ChecksumType::Crc32
+    } else {
+        ChecksumType::None
+    };
+    let options = ColumnBuilderOptions {
+        target_block_size,
+        checksum_type,
+        encode_type: encode_type_of(encode),
+        record_first_key,
+    };
+    let mut builder = match (datatype, char_width) {
+        (DataType::String, Some(_)) => {
+            ColumnBuilderImpl::String(CharColumnBuilder::new(nullable, char_width, options))
+        }
+        _ => ColumnBuilderImpl::new_from_datatype(datatype, nullable, options),
+    };
+    for a in arrays {
+        builder.append(a);
+    }
+    let (index, data) = builder.finish();
+    let mut index_builder = IndexBuilder::new(checksum_type, index.len());
+    let mut entries = vec![];
+    for e in index {
+        entries.push(VerifIndexEntry {
+            offset: e.offset,
+            length: e.length,
+            first_rowid: e.first_rowid,
+            row_count: e.row_count,
+            first_key: e.first_key.clone(),
+            is_first_key_null: e.is_first_key_null,
+        });
+        index_builder.append(e);
+    }
+    BuiltColumn {
+        data,
+        index: entries,
+        index_bytes: index_builder.finish(),
+    }
+}
+
+/// A real `Column` over in-memory bytes with its own block cache.
+pub struct VerifColumn {
+    column: Column,
+    cache: Cache<BlockCacheKey, Block>,
+    datatype: DataType,
+    char_width: Option<u64>,
+}
+
+impl VerifColumn {
+    /// `ColumnIndex::from_bytes(index_bytes)` + `Column::new(.., InMemory(data), cache, key)`.
+    pub fn open(
+        data: Vec<u8>,
+        index_bytes: &[u8],
+        datatype: DataType,
+        char_width: Option<u64>,
+    ) -> StorageResult<Self> {
+        let index = ColumnIndex::from_bytes(index_bytes)?;
+        let cache = Cache::new(2333);
+        let column = Column::new(
+            index,
+            ColumnReadableFile::InMemory(Bytes::from(data)),
+            cache.clone(),
+            BlockCacheKey::default(),
+        );
+        Ok(Self {
+            column,
+            cache,
+            datatype,
+            char_width,
+        })
+    }
+
+    /// Same column, same cache, other bytes (what a file altered after the cache was filled
+    /// looks like to the read path).
+    pub fn with_data(&self, data: Vec<u8>) -> Self {
+        Self {
+            column: Column::new(
+                self.column.index().clone(),
+                ColumnReadableFile::InMemory(Bytes::from(data)),
+                self.cache.clone(),
+                BlockCacheKey::default(),
+            ),
+            cache: self.cache.clone(),
+            datatype: self.datatype.clone(),
+            char_width: self.char_width,
+        }
+    }
+
+    pub fn block_count(&self) -> usize {
+        self.column.index().len()
+    }
+
+    pub fn index_entries(&self) -> Vec<VerifIndexEntry> {
+        self.column
+            .index()
+            .indexes()
+            .iter()
+            .map(|e| VerifIndexEntry {
+                offset: e.offset,
+                length: e.length,
+                first_rowid: e.first_rowid,
+                row_count: e.row_count,
+                first_key: e.first_key.clone(),
+                is_first_key_null: e.is_first_key_null,
+            })
+            .collect()
+    }
+
+    /// `Column::get_block`: (block type as i32, payload without the 16-byte trailer).
+    pub async fn get_block(&self, block_id: u32) -> StorageResult<(i32, Vec<u8>)> {
+        let (meta, block) = self.column.get_block(block_id).await?;
+        Ok((meta.block_type.into(), block.to_vec()))
+    }
+
+    /// The real column iterator positioned at `start_pos`.
+    pub async fn iter(&self, start_pos: u32) -> StorageResult<VerifIter> {
+        let column = self.column.clone();
+        use DataType::*;
+        let it = match &self.datatype {
+            Int16 => ColumnIteratorImpl::Int16(
+                I16ColumnIterator::new(column, start_pos, PrimitiveBlockIteratorFactory::new())
+                    .await?,
+            ),
+            Int32 => ColumnIteratorImpl::Int32(
+                I32ColumnIterator::new(column, start_pos, PrimitiveBlockIteratorFactory::new())
+                    .await?,
+            ),
+            Int64 => ColumnIteratorImpl::Int64(
+                I64ColumnIterator::new(column, start_pos, PrimitiveBlockIteratorFactory::new())
+                    .await?,
+            ),
+            Bool => ColumnIteratorImpl::Bool(
+                BoolColumnIterator::new(column, start_pos, PrimitiveBlockIteratorFactory::new())
+                    .await?,
+            ),
+            Float64 => ColumnIteratorImpl::Float64(
+                F64ColumnIterator::new(column, start_pos, PrimitiveBlockIteratorFactory::new())
+                    .await?,
+            ),
+            Decimal(_, _) => ColumnIteratorImpl::Decimal(
+                DecimalColumnIterator::new(column, start_pos, PrimitiveBlockIteratorFactory::new())
+                    .await?,
+            ),
+            Date => ColumnIteratorImpl::Date(
+                DateColumnIterator::new(column, start_pos, PrimitiveBlockIteratorFactory::new())
+                    .await?,
+            ),
+            Timestamp => ColumnIteratorImpl::Timestamp(
+                TimestampColumnIterator::new(
+                    column,
+                    start_pos,
+                    PrimitiveBlockIteratorFactory::new(),
+                )
+                .await?,
+            ),
+            TimestampTz => ColumnIteratorImpl::TimestampTz(
+                TimestampTzColumnIterator::new(
+                    column,
+                    start_pos,
+                    PrimitiveBlockIteratorFactory::new(),
+                )
+                .await?,
+            ),
+            Interval => ColumnIteratorImpl::Interval(
+                IntervalColumnIterator::new(
+                    column,
+                    start_pos,
+                    PrimitiveBlockIteratorFactory::new(),
+                )
+                .await?,
+            ),
+            String => ColumnIteratorImpl::Char(
+                CharColumnIterator::new(
+                    column,
+                    start_pos,
+                    CharBlockIteratorFactory::new(self.char_width.map(|w| w as usize)),
+                )
+                .await?,
+            ),
+            Blob => ColumnIteratorImpl::Blob(
+                BlobColumnIterator::new(column, start_pos, BlobBlockIteratorFactory()).await?,
+            ),
+            other => panic!("verif hook: unsupported column type {other:?}"),
+        };
+        Ok(VerifIter(it))
+    }
+}
+
+/// The real column iterator.
+pub struct VerifIter(ColumnIteratorImpl);
+
+impl VerifIter {
+    pub async fn next_batch(
+        &mut self,
+        expected_size: Option<usize>,
+    ) -> StorageResult<Option<(u32, ArrayImpl)>> {
+        self.0.next_batch(expected_size).await
+    }
+
+    pub fn skip(&mut self, cnt: usize) {
+        self.0.skip(cnt)
+    }
+
+    pub fn fetch_hint(&self) -> (usize, bool) {
+        self.0.fetch_hint()
+    }
+
+    pub fn fetch_current_row_id(&self) -> u32 {
+        self.0.fetch_current_row_id()
+    }
+}
+
+/// `build_checksum(ChecksumType::Crc32, data)`.
+pub fn crc32(data: &[u8]) -> u64 {
+    build_checksum(ChecksumType::Crc32, data)
+}
+
+/// `verify_checksum(type, data, checksum).is_ok()`; `crc32 = false` means `ChecksumType::None`.
+pub fn verify(crc32: bool, data: &[u8], checksum: u64) -> bool {
+    let t = if crc32 {
+        ChecksumType::Crc32
+    } else {
+        ChecksumType::None
+    };
+    verify_checksum(t, data, checksum).is_ok()
+}
